@@ -2360,6 +2360,12 @@ class TupleParser:
             return [self.parse_embeddedObject(obj) for obj in val]
         if val is None:
             return None
+        if not isinstance(val, str):
+            raise CIMXMLParseError(
+                _format("Embedded object attribute on an element whose value "
+                        "is a {0} object (must be a string)",
+                        val.__class__.__name__),
+                conn_id=self.conn_id)
 
         # Perform the un-embedding (may raise XMLParseError)
         tup_tree = xml_to_tupletree_sax(val, "embedded object", self.conn_id)
